@@ -36,8 +36,10 @@ WaiveNone == <<>>
 WaivePrio == <<"prio">>
 
 MCInit == Init /\ m = P!PHeader(Header) /\ bad = ""
-MCNext == Next /\ m' = P!PFold(m, obs') /\ bad' = m'.bad
-MCSpec == MCInit /\ [][MCNext]_mvars /\ WF_mvars(LoopExit \/ Attempt \/ Consume)
+Mon == m' = P!PFold(m, obs') /\ bad' = m'.bad
+MCNext == Next /\ Mon
+\* the client keeps running while a call is in progress (the caller and time need not move)
+MCSpec == MCInit /\ [][MCNext]_mvars /\ WF_mvars((LoopExit \/ Attempt \/ Consume) /\ Mon)
 
 Ok == bad = ""
 =============================================================================
